@@ -29,7 +29,7 @@ import (
 	"mvdan.cc/sh/v3/syntax/typedjson"
 )
 
-func init() { hlib.Register("lifecycle", lifecycleEngine) }
+func init() { hlib.Register("lifecycle", withSide(lifecycleEngine)) }
 
 type lcCfg struct {
 	Params      []string `json:"params"`      // arguments of interp.Params; nil = option not given
